@@ -379,6 +379,171 @@ theorem divide_loop_cut (i io ii i3 : Sym) (hi : Expr) (B : List Stmt) (par : Bo
     rw [e0]
     cases iterate (loopStep ext i B) t (0 + ((q * m : Nat) : Int)) σ1 <;> rfl
 
+/-! ### divide_loop (guard) -/
+
+theorem substC_of_not_occ (x : Sym) (r : Expr) : ∀ (e : Expr), e.occC x = false →
+    Expr.substC x r e = e
+  | .read y [], h => by
+    simp only [Expr.occC, decide_eq_false_iff_not] at h
+    simp [Expr.substC, h]
+  | .read y (_ :: _), _ => rfl
+  | .lit _, _ => rfl
+  | .usub e, h => by
+    simp only [Expr.occC] at h
+    simp [Expr.substC, substC_of_not_occ x r e h]
+  | .binop op a b, h => by
+    simp only [Expr.occC, Bool.or_eq_false_iff] at h
+    simp [Expr.substC, substC_of_not_occ x r a h.1, substC_of_not_occ x r b h.2]
+  | .extern _ _, _ => rfl
+  | .win _ _, _ => rfl
+  | .stride _ _, _ => rfl
+  | .readcfg _ _, _ => rfl
+
+/-- iterating a guarded step beyond the guard's bound does nothing -/
+theorem iterate_guarded_tail (g : Int → State V → Except Err (State V)) (N : Int)
+    (hg : ∀ v s, N ≤ v → g v s = .ok s) :
+    ∀ (n : Nat) (k : Int) (s : State V), N ≤ k → iterate g n k s = .ok s
+  | 0, _, _, _ => rfl
+  | n + 1, k, s, hk => by
+    simp only [iterate, bind, Except.bind]
+    rw [hg k s hk]
+    exact iterate_guarded_tail g N hg n (k + 1) s (by omega)
+
+theorem iterate_congr_below (P : State V → Prop) (f g : Int → State V → Except Err (State V))
+    (N : Int) (hP : ∀ v s s', P s → f v s = .ok s' → P s')
+    (h : ∀ v s, P s → v < N → g v s = f v s) :
+    ∀ (n : Nat) (k : Int) (s : State V), P s → k + n ≤ N → iterate g n k s = iterate f n k s
+  | 0, _, _, _, _ => rfl
+  | n + 1, k, s, hs, hk => by
+    simp only [iterate, bind, Except.bind]
+    rw [h k s hs (by omega)]
+    cases h1 : f k s with
+    | error e => rfl
+    | ok s1 => exact iterate_congr_below P f g N hP h n (k + 1) s1 (hP k s s1 hs h1) (by omega)
+
+/-- one iteration of a body guarded by `c`: the body runs iff `c` is true -/
+theorem guarded_step (j : Sym) (c : Expr) (B : List Stmt) (v : Int) (s : State V) (b : Int)
+    (hc : evalC (s.bind j v) c = .ok b) :
+    loopStep ext j [.ite c B []] v s
+      = if b ≠ 0 then loopStep ext j B v s else .ok s := by
+  unfold loopStep
+  rw [execL_singleton]
+  simp only [execS, hc, bind, Except.bind]
+  by_cases hb : b = 0
+  · simp only [hb, ne_eq, not_true_eq_false, if_false, execL, pure, Except.pure, Except.map]
+    congr 1
+    cases s with
+    | mk env views heap cfg => simp [State.leave, State.bind]
+  · simp only [hb, ne_eq, not_false_eq_true, if_true]
+    cases h1 : execL ext B (s.bind j v) with
+    | error e => rfl
+    | ok s1 =>
+      simp only [Except.map]
+      congr 1
+      simp [State.leave, State.bind, List.take_take]
+
+/-- `for i in [0, K): if i < hi: B`  =  `for i in [0, hi): B`  when `hi ≤ K` -/
+theorem guarded_loop_eq (i : Sym) (hi : Expr) (B : List Stmt) (σ : State V) (N : Int) (K : Nat)
+    (hN : 0 ≤ N) (hK : N ≤ K) (hh : evalC σ hi = .ok N) (ehi : hi.envOnly = true)
+    (hii : hi.occC i = false) :
+    iterate (loopStep ext i [.ite (.binop .lt (.read i []) hi) B []]) K 0 σ
+      = iterate (loopStep ext i B) N.toNat 0 σ := by
+  have hstep : ∀ v (s : State V), s.env = σ.env →
+      loopStep ext i [.ite (.binop .lt (.read i []) hi) B []] v s
+        = if v < N then loopStep ext i B v s else .ok s := by
+    intro v s hs
+    have e0 : evalC (s.bind i v) hi = .ok N := by
+      rw [evalC_envOnly hi ehi σ (s.bind i v) (fun y hy => by
+        have : y ≠ i := by intro e; subst e; rw [hii] at hy; cases hy
+        simp [State.bind, lookupSym_cons, this, hs])]
+      exact hh
+    have e1 : evalC (s.bind i v) (.read i []) = .ok v := by
+      simp [evalC, State.bind, lookupSym]; rfl
+    have hc : evalC (s.bind i v) (.binop .lt (.read i []) hi) = .ok (b2i (v < N)) := by
+      rw [evalC, e1, e0]; rfl
+    rw [guarded_step ext i _ B v s _ hc]
+    by_cases hv : v < N <;> simp [b2i, hv]
+  obtain ⟨n, hn⟩ : ∃ n : Nat, N = n := ⟨N.toNat, by omega⟩
+  subst hn
+  obtain ⟨d, hd⟩ : ∃ d : Nat, K = n + d := ⟨K - n, by omega⟩
+  subst hd
+  simp only [Int.toNat_natCast]
+  rw [iterate_add]
+  have first := iterate_congr_below (fun s : State V => s.env = σ.env) (loopStep ext i B)
+    (loopStep ext i [.ite (.binop .lt (.read i []) hi) B []]) n
+    (fun v s s' hs hstp => (loopStep_scope ext i B v s s' hstp).2.1.trans hs)
+    (fun v s hs hv => by rw [hstep v s hs]; simp [hv]) n 0 σ rfl (by omega)
+  rw [first]
+  cases h1 : iterate (loopStep ext i B) n 0 σ with
+  | error e => rfl
+  | ok s1 =>
+    simp only [bind, Except.bind]
+    have sc := iterate_scope _ (loopStep_scope ext i B) _ _ _ _ h1
+    -- beyond N every guarded step is the identity; carry the environment invariant
+    have tail : ∀ (m : Nat) (k : Int) (s : State V), s.env = σ.env → (n : Int) ≤ k →
+        iterate (loopStep ext i [.ite (.binop .lt (.read i []) hi) B []]) m k s = .ok s := by
+      intro m
+      induction m with
+      | zero => intro k s _ _; rfl
+      | succ m ih =>
+        intro k s hs hk
+        simp only [iterate, bind, Except.bind]
+        rw [hstep k s hs]
+        have : ¬ k < (n : Int) := by omega
+        simp only [this, if_false]
+        exact ih (k + 1) s hs (by omega)
+    exact tail d (0 + (n : Int)) s1 sc.1 (by omega)
+
+/-- `divide_loop(..., tail="guard")` (the default):
+    `for io in [0, (hi + q - 1) / q): for ii in [0, q): if q*io + ii < hi: B[i ↦ q*io + ii]`
+    equals `for i in [0, hi): B` for every non-negative value of `hi`, when `hi` depends on the
+    control environment only and mentions none of `i`, `io`, `ii`, which are fresh for `B` -/
+theorem divide_loop_guard (i io ii : Sym) (hi : Expr) (B : List Stmt) (par : Bool) (q : Nat)
+    (hq : 0 < q) (σ : State V) (N : Int) (hN : 0 ≤ N) (hh : evalC σ hi = .ok N)
+    (ehi : hi.envOnly = true) (hi_i : hi.occC i = false) (hi_io : hi.occC io = false)
+    (hi_ii : hi.occC ii = false) (hio : occL io B = false) (hii : occL ii B = false)
+    (hne : io ≠ ii) (hio_i : io ≠ i) (hii_i : ii ≠ i)
+    (hlv : ∀ k ∈ loopVarsL B, k ≠ io ∧ k ≠ ii) :
+    execS ext (.loop io (.lit (.int 0))
+        (.binop .div (.binop .add hi (.lit (.int ((q : Int) - 1)))) (.lit (.int q)))
+        [.loop ii (.lit (.int 0)) (.lit (.int q))
+          [.ite (.binop .lt (.binop .add (.binop .mul (.lit (.int q)) (.read io [])) (.read ii [])) hi)
+            (substL i (.binop .add (.binop .mul (.lit (.int q)) (.read io [])) (.read ii [])) B) []] par] par) σ
+      = execS ext (.loop i (.lit (.int 0)) hi B par) σ := by
+  have hq' : ¬ ((q : Int) ≤ 0) := by omega
+  obtain ⟨M, hM⟩ : ∃ M : Nat, (N + ((q : Int) - 1)) / (q : Int) = M :=
+    ⟨((N + ((q : Int) - 1)) / (q : Int)).toNat, by
+      have : 0 ≤ (N + ((q : Int) - 1)) / (q : Int) := Int.ediv_nonneg (by omega) (by omega)
+      omega⟩
+  have hcover : N ≤ ((q * M : Nat) : Int) := by
+    have h1 := Int.lt_mul_ediv_self_add (x := N + ((q : Int) - 1)) (k := (q : Int)) (by omega)
+    rw [hM] at h1
+    simp only [Int.natCast_mul]
+    omega
+  have hceil : evalC σ (.binop .div (.binop .add hi (.lit (.int ((q : Int) - 1)))) (.lit (.int q)))
+      = .ok (M : Int) := by
+    have ea : evalC σ (.binop .add hi (.lit (.int ((q : Int) - 1)))) = .ok (N + ((q : Int) - 1)) := by
+      rw [evalC, hh]; rfl
+    rw [evalC, ea]
+    simp only [evalC, bind, Except.bind, ctrlOp, hq', if_false, pure, Except.pure, hM]
+  -- the guarded body is the substitution instance of `if i < hi: B`
+  have hsub : substL i (.binop .add (.binop .mul (.lit (.int q)) (.read io [])) (.read ii []))
+      [.ite (.binop .lt (.read i []) hi) B []]
+      = [.ite (.binop .lt (.binop .add (.binop .mul (.lit (.int q)) (.read io [])) (.read ii [])) hi)
+          (substL i (.binop .add (.binop .mul (.lit (.int q)) (.read io [])) (.read ii [])) B) []] := by
+    simp [substL, Stmt.subst, Expr.substC, substC_of_not_occ i _ hi hi_i]
+  rw [← hsub]
+  rw [divided_main ext i io ii _ [.ite (.binop .lt (.read i []) hi) B []] par q M σ hceil
+      (by simp [occL, Stmt.occ, Expr.occC, hio, hi_io, hio_i.symm])
+      (by simp [occL, Stmt.occ, Expr.occC, hii, hi_ii, hii_i.symm])
+      hne
+      (fun k hk => by
+        simp only [loopVarsL, Stmt.loopVars, List.append_nil] at hk
+        exact hlv k hk)]
+  rw [execS_loop ext i _ hi B par σ 0 N rfl hh hN]
+  simp only [Int.sub_zero]
+  exact guarded_loop_eq ext i hi B σ N (q * M) hN hcover hh ehi hi_i
+
 /-! ### unroll_loop -/
 
 /-- `n` copies of the body with the iteration variable replaced by `lo`, `lo+1`, … -/
